@@ -90,6 +90,37 @@ theorem wf_aimd (mn mx dep wd fnum fden : Nat) (h1 : mn ≤ mx) (h2 : fnum ≤ f
       _ = fden * r := Nat.mul_comm _ _
   exact Nat.max_le.mpr ⟨Nat.le_trans this hr, h1⟩
 
+/-- … and whatever chain of setters the token-bucket builder is given, in whatever order and however often: the budget it
+builds is well-formed (its initial balance is `initial_tokens`, or `max_tokens` as it stands when `build()` runs, clamped to
+`max_tokens`), so conservation, the cap and linearizability hold for every builder-made token bucket. -/
+theorem wf_token_builder (items : List TSet) : WF (tokenCfg (items.foldl tokenSet {})) := by
+  have h := wf_token_all (items.foldl tokenSet {}).max ((items.foldl tokenSet {}).init.getD (items.foldl tokenSet {}).max)
+  simpa [tokenCfg] using h
+
+/-- the last `max_tokens` / `initial_tokens` setter of a chain is the one that counts -/
+theorem token_builder_last_wins (items : List TSet) (n : Nat) :
+    ((items ++ [TSet.max n]).foldl tokenSet {}).max = n ∧ ((items ++ [TSet.init n]).foldl tokenSet {}).init = some n := by
+  constructor <;> simp [List.foldl_append, tokenSet]
+
+/-- a setter of one kind leaves the other setting alone (`max_tokens` does not re-fund the bucket) -/
+theorem token_builder_setters_independent (b : TokenB) (n : Nat) :
+    (tokenSet b (TSet.max n)).init = b.init ∧ (tokenSet b (TSet.init n)).max = b.max := by
+  simp [tokenSet]
+
+/-- the AIMD builder: well-formed whenever the last `min_budget` is at most the last `max_budget` and the factor is at most one -/
+theorem wf_aimd_builder (items : List ASet)
+    (h1 : (items.foldl aimdSet {}).min ≤ (items.foldl aimdSet {}).max)
+    (h2 : (items.foldl aimdSet {}).fnum ≤ (items.foldl aimdSet {}).fden) (h3 : (items.foldl aimdSet {}).fden > 0) :
+    WF (aimdCfg (items.foldl aimdSet {})) := by
+  have := wf_aimd (items.foldl aimdSet {}).min (items.foldl aimdSet {}).max (items.foldl aimdSet {}).dep
+    (items.foldl aimdSet {}).wd (items.foldl aimdSet {}).fnum (items.foldl aimdSet {}).fden h1 h2 h3
+  simpa [aimdCfg] using this
+
+/-- the seeded shape: `initial_tokens(100)` given BEFORE `max_tokens(500)` funds the bucket with 100, not 500 -/
+example : (tokenCfg ([TSet.init 100, TSet.max 500].foldl tokenSet {})).initial = 100000 ∧
+          (tokenCfg ([TSet.max 500].foldl tokenSet {})).initial = 500000 ∧
+          (tokenCfg ([TSet.init 700, TSet.max 500].foldl tokenSet {})).initial = 500000 := by decide
+
 /-- Non-vacuity: a contended run (both threads load before either compare-exchanges) in which
 exactly one of two withdrawals of the last token is granted. -/
 example :
